@@ -343,6 +343,51 @@ func c17EditRegions(r *an.Run) {
 	}
 	r.Count("region bound assignments", n)
 	r.Min("region bound assignments", 4)
+	// (b1) the region of an element starts where something of the LIST says so. The local region begins as a copy
+	// of the parent's region; if some path of an iteration reaches `regions[i] = r` without assigning r.Pos, the
+	// first element's region starts at the parent's start — for the first declaration of a file that is the end
+	// of the package name, in front of the package clause's trailing comment and of free-standing comments that
+	// belong to nobody in the list.
+	var fill *ssa.Store
+	for _, in := range an.StoresIn(f) {
+		if st, ok := in.(*ssa.Store); ok {
+			if ia, ok := st.Addr.(*ssa.IndexAddr); ok && ia.X == made {
+				fill = st
+			}
+		}
+	}
+	if fill != nil {
+		assigns := map[*ssa.BasicBlock]bool{}
+		for _, in := range an.StoresIn(f) {
+			st, ok := in.(*ssa.Store)
+			if !ok || !fillLoop.Blocks[st.Block()] {
+				continue
+			}
+			if fa, ok := st.Addr.(*ssa.FieldAddr); ok && fa.X == ssa.Value(local) && fieldNameOf(fa) == "Pos" {
+				assigns[st.Block()] = true
+			}
+		}
+		var starts []*ssa.BasicBlock
+		for _, sx := range fillLoop.Header.Succs {
+			if fillLoop.Blocks[sx] {
+				starts = append(starts, sx)
+			}
+		}
+		inherits := false
+		for _, sx := range starts {
+			if assigns[sx] {
+				continue
+			}
+			reach := an.Reach([]*ssa.BasicBlock{sx}, func(b *ssa.BasicBlock, i int) bool {
+				t := b.Succs[i]
+				return assigns[t] || t == fillLoop.Header || !fillLoop.Blocks[t]
+			})
+			if reach[fill.Block()] {
+				inherits = true
+			}
+		}
+		r.Check(!inherits, short(f)+"|first-element-region-start", fill.Pos(), "on every path of an iteration the start of the element's region is set from the list (the previous element's end, its own position, or its own leading comment): on a path that assigns nothing the region keeps the parent's start — the first declaration's region then begins right behind the package name and covers the package clause's trailing comment and free-standing comments in front of the declaration")
+	}
 
 	// (c) which comments clamp: commentsFor classifies a comment group by its position relative to the node only
 	// (the function is recognised by what the region loop uses it for: it yields the two comment lists)
